@@ -120,6 +120,45 @@ theorem C05_many_in_order (ops : List Op) (ps : List (Nat × List Nat)) (hnf : (
       List.getElem?_map, List.getElem?_eq_getElem hklt, Option.map_some, ← hsnd]
   exact ⟨(nw[k]).1, hget, C05_contents ops' _ _ _ hget⟩
 
+/-- **C05_many_after_drops** — the same with any drops between `sendmsg` and the receipt (the message's own clones die when
+`send` returns, the sender may drop every copy it has, the handles in `ds` are arbitrary and may include the regions sent):
+the in-flight descriptors keep the memory objects alive, the regions still arrive in order, each with its own bytes. -/
+theorem C05_many_after_drops (ops : List Op) (ps : List (Nat × List Nat)) (ds : List Nat) (hnf : (run ops).flight = [])
+    (hlive : ∀ p ∈ ps, ∃ h, (run ops).hs[p.1]? = some (some (h, p.2))) :
+    let ops' := ops ++ ps.map flightOf ++ ds.map Op.drop ++ List.replicate ps.length Op.recvFlight
+    (run ops').hs.length = (run ops).hs.length + ps.length ∧ (run ops').flight = [] ∧
+    ∀ k p, ps[k]? = some p → ∃ h', (run ops').hs[(run ops).hs.length + k]? = some (some (h', p.2)) ∧
+      deref (run ops').k h' = .bytes p.2 ∧ h'.length = p.2.length := by
+  intro ops'
+  obtain ⟨fl, hfl, hA⟩ := flights_spec ps (run ops) (inv_run ops size_is_length) hlive
+  have hlen : fl.length = ps.length := by simpa using congrArg List.length hfl
+  have hrunA : run (ops ++ ps.map flightOf) = ⟨(run ops).k, (run ops).hs, fl⟩ := by
+    simp only [run, List.foldl_append] at hA ⊢
+    rw [hA]; simp only [run] at hnf; rw [hnf]; rfl
+  have hB := drops_keep ds (run (ops ++ ps.map flightOf))
+  have hrunB : run (ops ++ ps.map flightOf ++ ds.map Op.drop) = (ds.map Op.drop).foldl step (run (ops ++ ps.map flightOf)) := by
+    simp only [run, List.foldl_append]
+  rw [← hrunB, hrunA] at hB
+  obtain ⟨nw, hnw, hhs, hflt⟩ := recvs_spec fl (run (ops ++ ps.map flightOf ++ ds.map Op.drop)) hB.1
+  have hrun' : run ops' = (List.replicate fl.length Op.recvFlight).foldl step (run (ops ++ ps.map flightOf ++ ds.map Op.drop)) := by
+    simp only [ops', run, List.foldl_append, hlen]
+  have hnwlen : nw.length = ps.length := by
+    have := congrArg List.length hnw; simp at this; omega
+  have hhs' : (run ops').hs = (run (ops ++ ps.map flightOf ++ ds.map Op.drop)).hs ++ nw.map some := by rw [hrun', hhs]
+  have hbase : (run (ops ++ ps.map flightOf ++ ds.map Op.drop)).hs.length = (run ops).hs.length := hB.2
+  refine ⟨by rw [hhs', List.length_append, List.length_map, hnwlen, hbase], by rw [hrun']; exact hflt, ?_⟩
+  intro k p hk
+  have hklt : k < nw.length := by
+    rw [hnwlen]; exact (List.getElem?_eq_some_iff.mp hk).1
+  have hsnd : (nw[k]).2 = p.2 := by
+    have h1 : (nw.map Prod.snd)[k]? = (ps.map Prod.snd)[k]? := by rw [hnw, hfl]
+    simp only [List.getElem?_map, hk, List.getElem?_eq_getElem hklt, Option.map_some] at h1
+    exact Option.some.inj h1
+  have hget : (run ops').hs[(run ops).hs.length + k]? = some (some ((nw[k]).1, p.2)) := by
+    rw [hhs', ← hbase, List.getElem?_append_right (Nat.le_add_right _ _), Nat.add_sub_cancel_left,
+      List.getElem?_map, List.getElem?_eq_getElem hklt, Option.map_some, ← hsnd]
+  exact ⟨(nw[k]).1, hget, C05_contents ops' _ _ _ hget⟩
+
 /-- **C05_order** — several regions in one message arrive in order, after the channels and before the dedicated socket
 (descriptor order of the message; proved in the control-message model). -/
 theorem C05_order (sys len : Nat) (faults : List Frag.Fault) (chans shms : List Cmsg.Fd) (ded : Cmsg.Fd)
@@ -155,5 +194,9 @@ example : (run demo2).flight = [] ∧ (∀ p ∈ [(2, [9, 8]), (1, []), (3, [1, 
   · exact ⟨⟨some 6, 3, 5⟩, by decide⟩
 
 example : (run (demo2 ++ [0, 2, 0, 1].map Op.drop)).hs[3]? = some (some (⟨some 6, 3, 5⟩, [1, 2, 3])) := by decide
+/-- `C05_many_after_drops` on a concrete history: every handle dropped while the three regions are in flight -/
+example : let w := run (demo2 ++ [(2, [9, 8]), (1, []), (3, [1, 2, 3])].map flightOf ++ [0, 1, 2, 3].map Op.drop ++ List.replicate 3 Op.recvFlight)
+    (w.hs.drop 4).map (fun x => x.map fun p => (deref w.k p.1, p.2)) =
+      [some (.bytes [9, 8], [9, 8]), some (.bytes [], []), some (.bytes [1, 2, 3], [1, 2, 3])] := by decide
 
 end C05
